@@ -262,6 +262,83 @@ def run_case(case: dict):
     return v
 
 
+# ------------------------------------------------------------------ admitted = served: the limiter in front of a handler
+
+
+def served_case():
+    return st.fixed_dictionaries({
+        "capacity": st.integers(1, 3),
+        "rate": st.sampled_from(["0", "0.5", "1"]),
+        "events": st.lists(st.tuples(st.sampled_from([0, 0, 0.25, 1, 3]), st.sampled_from(["a", "a", "b"]),
+                                     st.sampled_from(["stay", "stay", "gone-at-once", "gone-later"]), st.booleans()),
+                           min_size=2, max_size=30),
+    })
+
+
+def run_served(case: dict):
+    """Requests (Gemini and Titan) through the real protocol with the real RateLimiter in the chain; some peers hang up
+    right after sending. What counts as admitted is what reaches a handler."""
+    setup_logging()
+    import nauyaca.server.middleware as mwmod
+    from nauyaca.server.middleware import MiddlewareChain, RateLimitConfig, RateLimiter
+    from nauyaca.server.protocol import GeminiServerProtocol
+    from vlib import srvsim
+    from vlib.faketransport import FakeTransport
+
+    cap, rate = case["capacity"], Fraction(case["rate"])
+    ADDR = {"a": "192.0.2.1", "b": "2001:db8::2"}
+
+    async def scenario(loop):
+        old = mwmod.time
+        mwmod.time = _Clock(loop)
+        try:
+            rl = RateLimiter(RateLimitConfig(capacity=cap, refill_rate=float(rate), retry_after=30))
+            chain = MiddlewareChain([rl])
+            sim = srvsim.Sim(loop)
+            handler = srvsim.build_handler(sim, {"kind": "value", "status": 20, "meta": "text/gemini", "body": "x"})
+            up = srvsim.build_upload(sim, {"kind": "value", "status": 20, "meta": "text/gemini", "body": "STORED"})
+            trs = []
+            for i, (dt, who, beh, titan) in enumerate(case["events"]):
+                if dt:
+                    await asyncio.sleep(dt)
+                tr = FakeTransport(loop, peername=(ADDR[who], 40000 + i))
+                tr.attach(GeminiServerProtocol(handler, chain, up))
+                tr.feed(f"titan://localhost/f{i};size=1;token={who}\r\nX".encode() if titan else f"gemini://localhost/{i}?{who}\r\n".encode())
+                if beh == "gone-at-once":
+                    tr.peer_disconnect(ConnectionResetError(104, "reset"))
+                await vloop.settle(4)
+                if beh == "gone-later":
+                    tr.peer_disconnect()
+                trs.append(tr)
+            await asyncio.sleep(50)
+            return sim, trs
+        finally:
+            mwmod.time = old
+
+    sim, trs = vloop.run(scenario)
+    served = {"a": [], "b": []}
+    for e in sim.log:
+        if e[0] == "handler":
+            served[e[2].rsplit("?", 1)[1]].append(Fraction(e[1]).limit_denominator(1000))
+        elif e[0] == "upload":
+            served[e[6]].append(Fraction(e[1]).limit_denominator(1000))
+    refusals = sum(1 for tr in trs if tr.written().startswith(b"44 "))
+    info = {"served": sum(len(v) for v in served.values()), "refusals": refusals,
+            "gone": sum(1 for ev in case["events"] if ev[2] != "stay")}
+    for who, ts in served.items():
+        for i in range(len(ts)):
+            for j in range(i, len(ts)):
+                if j - i + 1 > cap + rate * (ts[j] - ts[i]):
+                    return viol("window-bound-exceeded-at-the-handler",
+                                f"address {who}: {j - i + 1} requests reached a handler within {float(ts[j] - ts[i])} s; capacity {cap}, "
+                                f"refill {rate}/s allow at most {float(cap + rate * (ts[j] - ts[i]))}", **info)
+    for tr, ev in zip(trs, case["events"]):
+        S = tr.written()
+        if ev[2] == "stay" and not (S.startswith(b"20 ") or S == b"44 Rate limit exceeded. Retry after 30 seconds\r\n"):
+            return viol("unexpected-answer", f"{S[:60]!r}", **info)
+    return ok(**info)
+
+
 def _nontrivial(case, v):
     return v.info.get("refusals", 0) > 0 or v.info.get("idle_gap", False) or v.kind == "violation"
 
@@ -297,4 +374,9 @@ LANES = [
     Lane(name="histories", run_case=run_case, strategy=case_st, budget={"quick": 4000, "thorough": 120000},
          shards={"quick": 16, "thorough": 64}, nontrivial=_nontrivial, labels=_labels, bucket=_bucket,
          rule="random histories up to 200 arrivals (bursts up to 3) over 3 addresses spanning several clean-up periods"),
+    Lane(name="served", run_case=run_served, strategy=served_case, budget={"quick": 3200, "thorough": 60000},
+         shards={"quick": 16, "thorough": 32}, nontrivial=lambda c, v: v.info.get("refusals", 0) > 0 or v.kind == "violation",
+         labels=lambda c, v: ["has-refusal" if v.info.get("refusals") else "no-refusal", "peer-gone" if v.info.get("gone") else "all-stay"],
+         rule="the real RateLimiter in the chain of the real protocol, Gemini and Titan requests, peers that hang up at "
+              "once or later; admitted = reached a handler; window bound on handler invocation times"),
 ]
